@@ -90,8 +90,9 @@ def run(ctx, V):
         r = corr_C03.run_case(srng, corr_C03.STAGES[k % len(corr_C03.STAGES)], with_faults=True, quick=quick)
         vres.append(r)
     # targeted: every worker dies while the bounded queue is full -> producer stuck in put()
-    for stage_fn, n_items in ((corr_C03.stage_visit, None), (corr_C03.stage_multi_tan, 8), (corr_C03.stage_multi_wcs, 7)):
-        for attempt in range(40):
+    for stage_fn, n_items in ((corr_C03.stage_visit, None), (corr_C03.stage_multi_tan, 8), (corr_C03.stage_multi_wcs, 7),
+                              (corr_C03.stage_transform_deep, 85)):
+        for attempt in range(400):
             srng = common.rng_for(rng.randrange(1 << 30), "C19hang")
             r = run_all_bad(srng, stage_fn)
             if r is not None:
